@@ -44,19 +44,19 @@ type c18Ref struct {
 func (r c18Ref) String() string { return fmt.Sprintf("%c%d", r.kind, r.idx) }
 
 const (
-	c18Direct   = iota // f: tX.out
-	c18Nested          // f: a: b: tX.out
-	c18Sum             // f: X + Y (+ Z)
-	c18Interp          // f: "\(tX.out)"
-	c18ListComp        // f: [for v in [X, Y] {v}]
-	c18Cond            // if tX.out > 0 {f: Y}      refs[0] = guard (no data), refs[1] = data
-	c18Group           // f: [for k, v in gJ {v.out}]
-	c18After           // $after: [tX, tY]          no data
-	c18ListDirect      // f: tX.lst                 (list valued result)
-	c18ListNested      // f: deep: items: tX.lst
-	c18ListLen         // f: len(tX.lst)
-	c18ListFor         // f: [for x in tX.lst {x}]
-	c18AfterList       // $after: tX.lst           no data
+	c18Direct     = iota // f: tX.out
+	c18Nested            // f: a: b: tX.out
+	c18Sum               // f: X + Y (+ Z)
+	c18Interp            // f: "\(tX.out)"
+	c18ListComp          // f: [for v in [X, Y] {v}]
+	c18Cond              // if tX.out > 0 {f: Y}      refs[0] = guard (no data), refs[1] = data
+	c18Group             // f: [for k, v in gJ {v.out}]
+	c18After             // $after: [tX, tY]          no data
+	c18ListDirect        // f: tX.lst                 (list valued result)
+	c18ListNested        // f: deep: items: tX.lst
+	c18ListLen           // f: len(tX.lst)
+	c18ListFor           // f: [for x in tX.lst {x}]
+	c18AfterList         // $after: tX.lst           no data
 	c18nShapes
 	c18AfterGroup = 100 // $after: [for k, v in gJ {v.out}]   no data (only for group targets)
 )
